@@ -519,6 +519,12 @@ void execute_assignment(StatementExecutor *executor, Interpreter &interpreter,
                 throw std::runtime_error("Not a struct array: " + array_name);
             }
 
+            // const配列の要素は構造体リテラルでも上書き不可
+            if (array_var->is_const && array_var->is_assigned) {
+                throw std::runtime_error("Cannot assign to const variable: " +
+                                         array_name);
+            }
+
             // 構造体リテラルを配列要素に代入
             // assign_struct_literal()が配列要素変数とメンバー変数を自動的に作成する
             interpreter.assign_struct_literal(element_name, node->right.get());
